@@ -174,7 +174,7 @@ w('''
 //@ func (*handler1).findTopicID
 //@   nopanic [C25]
 //@   requires [C25] types: regTypes(h)
-//@   ensures [C02] resolves: result2 ==> (result1 == 0 || result1 == 1) && denotesDefined(h, result1, result0) && denotesName(h, result1, result0, topic)
+//@   ensures [C02,C32] resolves: result2 ==> (result1 == 0 || result1 == 1) && denotesDefined(h, result1, result0) && denotesName(h, result1, result0, topic)
 //@   ensures [C02] none: !result2 ==> result0 == 0 && result1 == 0
 
 //@ func (*handler1).handleBrokerPublish
